@@ -238,3 +238,50 @@ def getter_check(prop, tier, seed, replay=None):
                       trusted=['token-to-text mapping and result classification in harness/getfam', 'strconv/base64 as value oracles', 'TLC'])
     finally:
         shutil.rmtree(work, ignore_errors=True)
+
+def emit_check(prop, tier, seed, replay=None):
+    """C13: (a) ParseRequests against the Wire table, (b.i) message grammar on every Send event of the concurrent families,
+    (b.ii) the Emit product pushed through every emission path."""
+    t0 = time.time()
+    work = C.scratch('emit_' + prop)
+    try:
+        wt = export_table('Wire', work, name='wire.json')
+        nwire = json.load(open(wt))['ncells']
+        bw = C.build_harness('wirefam', work)
+        ww = os.path.join(work, 'w'); os.makedirs(ww)
+        rw, cw = run_shards(bw, 'TestWire', ww, C.NCPU, dict(VERIF_TABLE=wt, VERIF_SEED=str(seed), VERIF_VARIANTS='1' if tier == 'quick' else '3',
+                                                          VERIF_RANDOM='100' if tier == 'quick' else '2000', VERIF_BATCHES='100' if tier == 'quick' else '2000'))
+        et = os.path.join(work, 'emit.json')
+        rc, txt = C.run_tlc(work, 'Emit', 'SPECIFICATION Spec\n', workers=1, timeout=900, env={'OUT': et}, cfgname='emit_export.cfg')
+        if not os.path.exists(et) or 'Model checking completed' not in txt:
+            raise C.ToolError('TLC evaluation of Emit failed (rc=%s):\n%s' % (rc, txt[-3000:]))
+        nemit = json.load(open(et))['ncells']
+        be = C.build_harness('emitfam', work)
+        we = os.path.join(work, 'e'); os.makedirs(we)
+        re_, ce = run_shards(be, 'TestEmit', we, C.NCPU, dict(VERIF_TABLE=et, VERIF_SEED=str(seed), VERIF_STRIDE='4' if tier == 'quick' else '1'), timeout=3000)
+        violations = [v for r in rw + re_ for v in (r.get('violations') or []) if v['property'] == prop]
+        for c in cw + ce:
+            if not library_crash(c['log']):
+                raise C.ToolError('C13 shard crashed outside the library: ' + c['log'][-1500:])
+            violations.append(dict(property=prop, why='the library crashed the process: ' + c['log'][-900:]))
+        # (b.i) the message grammar on every record handed to a channel by the concurrent families
+        from . import chan_family
+        gram = chan_family.grammar_traces(prop, tier, seed, work)
+        for name, path, r in gram['violations']:
+            violations.append(dict(property=prop, scenario=name, why='emitted record violates the message grammar', event=r['event'], replay_scenario=path))
+        classes = {}
+        for r in re_:
+            for k, n in (r.get('classes') or {}).items(): classes[k] = classes.get(k, 0) + n
+        samples = [s for r in re_ for s in (r.get('samples') or [])][:6]
+        results = rw + re_
+        return finish(prop, tier, seed, t0, 'model_checking', nwire + nemit, results, cw + ce, violations,
+                      rule='(a) ParseRequests on every cell of the Wire product (%d cells: totality, entry count/order, flagged members per spec/Wire.tla Flagged, id/method fields) and on batches/mutations; '
+                           '(b.i) the one-line / version grammar guard (tag C13 of spec/ChanDiscipline.tla) on all %d Send events of %d server- and client-family traces; '
+                           '(b.ii) %d of the %d cells of spec/Emit.tla (path x 1-2 method character classes x value class; quick tier takes every 4th) pushed through Call, Batch, Notify, responses, error responses, '
+                           'pushed notifications, callbacks, callback replies and Bridge replies, captured on the channel and decoded by the library parser and an independent decoder; '
+                           'NOTE: (b.ii) uses TLC as a combinatorial enumerator; its oracle is decode(encode(x)) = x computed in Go' %
+                           (nwire, gram['sends'], gram['traces'], sum(r.get('cells', 0) for r in re_), nemit),
+                      samples=samples, extra=dict(emission_paths=classes, grammar_traces=gram['traces'], send_events=gram['sends']),
+                      trusted=['value concretisation and the generic JSON decoder in harness/emitfam', 'TLC evaluation of spec/Wire.tla and spec/Emit.tla'])
+    finally:
+        shutil.rmtree(work, ignore_errors=True)
